@@ -1362,3 +1362,62 @@ func VH_C09_cluster2_snapshot_restart() {
 	vAssert(step >= 6, "script-completed")
 	vReach("end")
 }
+
+//verif:check C15,C09 sched=coop maxsteps=1500000 onunwind=violation stubs=rt,timers,valuefile,abslog,snapfs onblock=violation reach=user-snapshot-running,periodic-tick-while-running,snapshot-done,second-periodic,closed,end desc="periodic snapshots against a slow user snapshot, on a real leader with the real FSM loop and snapshot goroutine: a TakeSnapshot task is in progress (the state machine's Snapshot call is held) when the periodic snapshot timer fires; the tick is consumed, the periodic request is turned away, the loop keeps serving tasks; when the user snapshot completes its task succeeds, the log is compacted and the periodic timer is re-armed without blocking the loop; the next tick then takes a periodic snapshot (or reports nothing to snapshot); shutdown completes" bounds="leader + follower (third voter down), snapshot interval on; one user snapshot, two timer ticks, one client update in between; round-robin goroutine schedule"
+func VH_C15_cluster2_periodic_snapshot() {
+	cfgE := vClusterConfig().encode()
+	cfgE.index, cfgE.term = 1, 1
+	e2 := &entry{index: 2, term: 1, typ: entryUpdate, data: vBytes("payload2", 1)}
+	e3 := &entry{index: 3, term: 2, typ: entryUpdate, data: vBytes("payload3", 1)}
+	c := vNewCluster()
+	L := c.add(1, []*entry{cfgE, e2, e3}, 3, 1, 2)
+	F := c.add(2, []*entry{cfgE, e2, e3}, 3, 1, 2)
+	L.state, L.leader = Leader, 1
+	L.snapInterval = time.Hour
+	lfsm := L.fsm.FSM.(*vFSM)
+	lfsm.snapGate = make(chan struct{})
+	c.wire()
+	c.start(1)
+	user := takeSnapshot{task: newTask(), threshold: 0}
+	probe := inspect{task: newTask(), fn: func(r *Raft) {}}
+	ne := &newEntry{task: newTask(), entry: &entry{typ: entryUpdate, data: vBytes("client.cmd", 1)}}
+	step := 0
+	vSetIdleHook(func() {
+		switch step {
+		case 0:
+			vAssert(L.commitIndex == 4 && F.commitIndex == 4, "Q-settled")
+			vAssert(L.snapTimer.active, "Q-periodic-timer-armed-at-start")
+			vOffer(L.taskCh, user)
+		case 1:
+			vAssert(L.snapTakenCh != nil && !isClosed(user.Done()), "Q-user-snapshot-in-progress")
+			vReach("user-snapshot-running")
+			vAssert(vFire(L.snapTimer), "Q-periodic-timer-pending")
+		case 2:
+			vReach("periodic-tick-while-running")
+			vAssert(!L.snapTimer.active, "Q-consumed-tick-leaves-the-timer-inactive")
+			vAssert(!isClosed(user.Done()), "Q-user-snapshot-still-running")
+			vOffer(L.taskCh, probe)
+		case 3:
+			vAssert(isClosed(probe.Done()), "Q-loop-serves-tasks-while-a-snapshot-runs")
+			close(lfsm.snapGate) // the state machine finally hands its state over
+		case 4:
+			vReach("snapshot-done")
+			vAssert(isClosed(user.Done()) && user.Err() == nil && L.snaps.index == 4, "Q-user-snapshot-succeeds")
+			vAssert(L.snapTakenCh == nil && L.snapTimer.active, "Q-periodic-timer-re-armed-after-the-snapshot")
+			vOffer(L.newEntryCh, ne)
+		case 5:
+			vAssert(isClosed(ne.Done()) && ne.Err() == nil && L.commitIndex == 5, "Q-update-after-the-snapshot-commits")
+			lfsm.snapGate = nil
+			vAssert(vFire(L.snapTimer), "Q-periodic-timer-pending-again")
+		case 6:
+			vReach("second-periodic")
+			vAssert(L.snaps.index == 5 && L.snapTakenCh == nil && L.snapTimer.active, "Q-periodic-snapshot-taken-and-timer-re-armed")
+			c.closeAll()
+		}
+		step++
+	})
+	L.stateLoop()
+	vReach("closed")
+	vAssert(step >= 7, "script-completed")
+	vReach("end")
+}
